@@ -1,9 +1,9 @@
 SPECIFICATION Spec
 CONSTANTS
-    MaxPts = 3
+    MaxPts = 4
     K = 1
-    BufSize = 2
-    Topos <- MCTopos
+    BufSize = 3
+    Topos <- MCInfluxOnly
     StopKinds <- BothKinds
     AllowFail = TRUE
     MaxN = 3
@@ -22,3 +22,6 @@ INVARIANTS
     NoCollectOnClosed
     StoppedMeansQuiet
 CHECK_DEADLOCK TRUE
+PROPERTIES
+    StopCompletes
+    AllGoroutinesExit
